@@ -219,6 +219,7 @@ def units(tier, seed):
             u.append(dict(kind="config", task=task, pairs="double", chunk=[k, 4]))
     u.append(dict(kind="sensing"))
     u.append(dict(kind="frame_config"))
+    u.append(dict(kind="all_labels"))
     return u
 
 
@@ -242,6 +243,11 @@ def run_unit(unit, acc):
             combos = combos[unit["chunk"][0]::unit["chunk"][1]]
         for combo in combos:
             check_case(dict(kind="config", task=unit["task"], edits=combo), acc)
+    elif unit["kind"] == "all_labels":
+        for order in (["autoware", "traffic_light"], ["traffic_light", "autoware"], ["autoware", "autoware", "traffic_light"]):
+            for tl in (None, []):
+                for task in ("detection2d", "tracking2d", "classification2d"):
+                    check_case(dict(kind="all_labels", order=order, target_labels=tl, task=task), acc)
     elif unit["kind"] == "sensing":
         for edits in ([], ["task:foo"], ["task:detection"], ["del:evaluation_task"], ["add:target_uuids"]):
             check_case(dict(kind="sensing", edits=edits), acc)
@@ -344,6 +350,38 @@ def check_case(case, acc):
                                 a, row, n, case["task"], case["edits"]), case)
         if got != "ok" and not why and case["edits"] == ["none"] and case["task"] != "prediction":
             acc.violation("config:valid-rejected", "the valid base configuration of task %s is rejected (%s)" % (case["task"], got), case)
+    elif k == "all_labels":
+        # no target labels given = every label of the family; several configurations of different families live in one process
+        from perception_eval.common.label import AutowareLabel, TrafficLightLabel
+        fam = {"autoware": AutowareLabel, "traffic_light": TrafficLightLabel}
+        made = []
+        for prefix in case["order"]:
+            c = {"evaluation_task": case["task"], "label_prefix": prefix, "center_distance_thresholds": [100.0], "iou_2d_thresholds": [0.5]}
+            if case["target_labels"] is not None:
+                c["target_labels"] = list(case["target_labels"])
+            acc.exec()
+            try:
+                ec = PerceptionEvaluationConfig(["/nonexistent"], "cam_front", _res_dir(), c)
+            except Exception as ex:  # noqa
+                acc.violation("all-labels:rejected", "a configuration without target labels (family %s) was rejected: %r" % (prefix, ex), case)
+                continue
+            made.append((prefix, ec))
+        acc.compared()
+        for prefix, ec in made:
+            want = len(list(fam[prefix]))
+            n = len(ec.target_labels)
+            bad_len = [(key, len(v)) for key, v in ec.filtering_params.items() if isinstance(v, list) and key not in ("target_uuids", "ignore_attributes") and len(v) != n]
+            rows = []
+            mc = ec.metrics_config
+            for cc in (mc.detection_config, mc.tracking_config):
+                if cc is not None:
+                    for a in METRIC_KEYS:
+                        rows += [len(r) for r in getattr(cc, a)]
+            if n != want or any(type(l) is not fam[prefix] for l in ec.target_labels) or len(set(l.name for l in ec.target_labels)) != n:
+                acc.violation("all-labels:target-list", "configuration of family %s without target labels exposes %d target labels, the family has %d (order %s)" % (prefix, n, want, case["order"]), case)
+            elif bad_len or any(r != n for r in rows):
+                acc.violation("all-labels:list-length", "configuration of family %s: per-label lists %s / metric rows %s do not hold one value per target label (%d)" % (prefix, bad_len, rows, n), case)
+        acc.state(("all_labels", tuple(case["order"]), case["target_labels"] is None, case["task"], len(made)), nontrivial=len(case["order"]) > 1)
     elif k == "sensing":
         c = {"evaluation_task": "sensing", "target_uuids": None, "box_scale_0m": 1.0, "box_scale_100m": 1.0, "min_points_threshold": 1}
         for e in case["edits"]:
